@@ -2,6 +2,7 @@
 EXTENDS SplStatic, Json
 TN == {"vec", "mat"}
 TN0 == {}
+TN1 == {"vec"}
 PN1 == {"p"}
 PN0 == {}
 VN1 == {"a"}
